@@ -278,11 +278,13 @@ func runGenerated(c *engine.Ctx) {
 		runGeneratedBound(c, 3, 4, 0, "shared")  // names shared between levels
 		runGeneratedBound(c, 4, 1, 4, "shared")  // ... and the 4-node schemas with trees of <= 1 node
 		runGeneratedBound(c, 3, 4, 0, "typedef") // defaults that come from a typedef
+		runGeneratedBound(c, 3, 4, 0, "state")   // every top-level node config false
 		return
 	}
 	runGeneratedBound(c, 4, 6, 0, "")
 	runGeneratedBound(c, 4, 5, 0, "shared")
 	runGeneratedBound(c, 4, 5, 0, "typedef")
+	runGeneratedBound(c, 4, 5, 0, "state")
 }
 
 func schemaCost(kids []*S) int {
@@ -297,7 +299,8 @@ func schemaCost(kids []*S) int {
 }
 
 // shared: "shared" = the schemas are renamed so that names are unique among siblings only (RenameShared);
-// "typedef" = every leaf without a default of its own takes a type with a default (WithTypedefDefaults).
+// "typedef" = every leaf without a default of its own takes a type with a default (WithTypedefDefaults);
+// "state" = every top-level node is config false (WithConfigFalse).
 func runGeneratedBound(c *engine.Ctx, sb, db, onlyCost int, shared string) {
 	all := genSchemas(sb)
 	c.Note(fmt.Sprintf("%d generated schemas of <= %d nodes, data trees of <= %d nodes, names shared between levels: %v", len(all), sb, db, shared))
@@ -307,6 +310,8 @@ func runGeneratedBound(c *engine.Ctx, sb, db, onlyCost int, shared string) {
 			kids = RenameShared(kids)
 		case "typedef":
 			kids = WithTypedefDefaults(kids)
+		case "state":
+			kids = WithConfigFalse(kids)
 		}
 		if c.Expired() {
 			return
